@@ -78,6 +78,7 @@ func runCase(c *Case, scratch string) (res result) {
 			}
 		case "compact":
 			w.compact()
+			afterCompact()
 		default:
 			res.Fatal = "unknown op " + st.Op
 			return
